@@ -315,6 +315,7 @@ func (c *Client) monitor(ctx context.Context) {
 			return
 
 		case err, ok := <-c.sechanErr:
+			verifPoint("mon.err", c, "err", err, "ok", ok)
 			stats.RecordError(err)
 
 			// return if channel or connection is closed
@@ -392,6 +393,7 @@ func (c *Client) monitor(ctx context.Context) {
 
 					case createSecureChannel:
 						dlog.Printf("action: createSecureChannel")
+						verifPoint("mon.action", c, "action", "createSecureChannel")
 
 						// recreate a secure channel by brute forcing
 						// a reconnection to the server
@@ -431,6 +433,7 @@ func (c *Client) monitor(ctx context.Context) {
 
 					case restoreSession:
 						dlog.Printf("action: restoreSession")
+						verifPoint("mon.action", c, "action", "restoreSession")
 
 						// try to reactivate the session,
 						// This only works if the session is still open on the server
@@ -470,6 +473,7 @@ func (c *Client) monitor(ctx context.Context) {
 
 					case recreateSession:
 						dlog.Printf("action: recreateSession")
+						verifPoint("mon.action", c, "action", "recreateSession")
 
 						c.setState(ctx, Reconnecting)
 						// create a new session to replace the previous one
@@ -505,6 +509,7 @@ func (c *Client) monitor(ctx context.Context) {
 
 					case transferSubscriptions:
 						dlog.Printf("action: transferSubscriptions")
+						verifPoint("mon.action", c, "action", "transferSubscriptions")
 
 						// transfer subscriptions from the old to the new session
 						// and try to republish the subscriptions.
@@ -552,6 +557,7 @@ func (c *Client) monitor(ctx context.Context) {
 
 					case restoreSubscriptions:
 						dlog.Printf("action: restoreSubscriptions")
+						verifPoint("mon.action", c, "action", "restoreSubscriptions")
 
 						// try to republish the previous subscriptions from the server
 						// otherwise restore them.
@@ -581,6 +587,7 @@ func (c *Client) monitor(ctx context.Context) {
 
 					case abortReconnect:
 						dlog.Printf("action: abortReconnect")
+						verifPoint("mon.action", c, "action", "abortReconnect")
 
 						// non recoverable disconnection
 						// stop the client
@@ -597,6 +604,7 @@ func (c *Client) monitor(ctx context.Context) {
 				<-c.sechanErr
 			}
 
+			verifPoint("mon.done", c, "activeSubs", activeSubs)
 			switch {
 			case activeSubs > 0:
 				dlog.Printf("resuming %d subscriptions", activeSubs)
@@ -679,6 +687,7 @@ func (c *Client) State() ConnState {
 
 func (c *Client) setState(ctx context.Context, s ConnState) {
 	c.atomicState.Store(s)
+	verifPoint("state", c, "state", s)
 	if c.stateCh != nil {
 		select {
 		case <-ctx.Done():
